@@ -48,7 +48,7 @@ def sha(path):
 
 
 def run_ddsmt(workdir, text, spec, opts, mode='blackbox', plan=None, spec_cc=None,
-              ext='.smt2', hashseed='0', wall_limit=300, sigint_after=None, verbosity=('-v', ),
+              ext='.smt2', hashseed='0', wall_limit=300, sigint_after=None, sigint_after_tests=None, verbosity=('-v', ),
               infile_name=None, keep=False):
     """Run ddSMT once.  ``opts`` as for opts_to_argv (+ 'timeout' recommended).
 
@@ -93,7 +93,24 @@ def run_ddsmt(workdir, text, spec, opts, mode='blackbox', plan=None, spec_cc=Non
     r.pid = p.pid
     r.timed_out = False
     try:
-        if sigint_after is not None:
+        if sigint_after_tests is not None:
+            # send SIGINT to the main process once the command has been run on
+            # that many files (i.e. during minimisation, not during start-up)
+            deadline = time.time() + wall_limit
+            while p.poll() is None and time.time() < deadline:
+                try:
+                    with open(log, 'rb') as lf:
+                        nlines = lf.read().count(b'\n')
+                except FileNotFoundError:
+                    nlines = 0
+                if nlines >= sigint_after_tests:
+                    os.kill(p.pid, signal.SIGINT)
+                    r.sigint_sent = True
+                    r.sigint_at_tests = nlines
+                    break
+                time.sleep(0.005)
+            out, err = p.communicate(timeout=wall_limit)
+        elif sigint_after is not None:
             try:
                 out, err = p.communicate(timeout=sigint_after)
             except subprocess.TimeoutExpired:
@@ -172,7 +189,10 @@ def list_group(pgid):
             if pgrp == pgid and state != 'Z':
                 with open(f'/proc/{pid}/cmdline', 'rb') as f:
                     cl = f.read().replace(b'\0', b' ').decode('utf-8', 'replace')[:120]
-                out.append((int(pid), state, cl))
+                start = int(rest[19]) / os.sysconf('SC_CLK_TCK')
+                with open('/proc/uptime') as f:
+                    up = float(f.read().split()[0])
+                out.append((int(pid), state, cl, round(up - start, 2)))
         except (OSError, ValueError):
             continue
     return out
